@@ -216,7 +216,7 @@ def universe():
     u += [C("a"), C("b"), Y("a"), Y("foo")]
     u += [S(s) for s in ("", "a", "aa", "ab", "aaa", "aab", "abc", "hello", "abcdefg", "hello foo")]
     vecs = [[], [1], [0], [1, 2], [2, 3], [1, 2, 3], [3, 1, 2], [1, 2, 3, 4], [1, 1, 2, 1], [0, 1, 0, 1, 0], [1, 2, 3, 4, 5, 6],
-            [-1, 2], [0, 2], [2, -1], [2, 2, 2],
+            [-1, 2], [0, 2], [2, -1], [2, 2, 2], [2], [3],
             [1.5], [0.5, 2.5], [1.0, 2.0, 3.0], [1, 2.5], [1.5, 2, 3],
             [C("a"), C("b")],
             [[1]], [[1, 2, 3]], [[1, 2], [3, 4]], [[1, 2], [4, 5], [5, 6]], [[1, 2, 3], [4, 5, 6]],
@@ -271,7 +271,7 @@ def is_count(v):
 
 
 COUNT_LEFT = ("eval_dyad_take", "eval_dyad_drop", "eval_dyad_rotate", "eval_dyad_split", "eval_dyad_cut", "eval_dyad_reshape")
-COUNT_RIGHT = ("eval_dyad_at_index",)
+COUNT_RIGHT = ("eval_dyad_at_index", "eval_dyad_index_in_depth", "eval_dyad_amend", "eval_dyad_amend_in_depth")
 
 MODELLED_MONADS = ["eval_monad_atom", "eval_monad_char", "eval_monad_enumerate", "eval_monad_expand_where", "eval_monad_first",
                    "eval_monad_floor", "eval_monad_list", "eval_monad_negate", "eval_monad_reciprocal", "eval_monad_reverse",
@@ -280,7 +280,8 @@ MODELLED_MONADS = ["eval_monad_atom", "eval_monad_char", "eval_monad_enumerate",
 MODELLED_DYADS = ["eval_dyad_add", "eval_dyad_subtract", "eval_dyad_multiply", "eval_dyad_divide", "eval_dyad_minimum",
                   "eval_dyad_maximum", "eval_dyad_remainder", "eval_dyad_integer_divide", "eval_dyad_less", "eval_dyad_more",
                   "eval_dyad_equal", "eval_dyad_take", "eval_dyad_drop", "eval_dyad_rotate", "eval_dyad_split", "eval_dyad_cut",
-                  "eval_dyad_join", "eval_dyad_at_index", "eval_dyad_find", "eval_dyad_match", "eval_dyad_reshape"]
+                  "eval_dyad_join", "eval_dyad_at_index", "eval_dyad_find", "eval_dyad_match", "eval_dyad_reshape",
+                  "eval_dyad_power", "eval_dyad_index_in_depth", "eval_dyad_amend", "eval_dyad_amend_in_depth"]
 
 
 def hangs(fname, a, b):
